@@ -5,33 +5,33 @@ CONSTANTS
   NodeKinds <- MCNodeKinds
   CallSet <- MCCallSet
   Twin <- MCTwin
-  N = 3
+  N = 2
   MaxCalls = 1
   SrcEnc = "none"
   DstEnc = "none"
-  EmptyArrayNil = TRUE
-  NilEntryPanics = TRUE
-  KeyByAsked = TRUE
+  EmptyArrayNil = FALSE
+  NilEntryPanics = FALSE
+  KeyByAsked = FALSE
   RecordAfter = FALSE
   DropParms = FALSE
   VerbatimAlways = FALSE
   StepBound = 400
   ScalarAtoms = {"i:7"}
-  MaxSlots = 2
-  WithDict = TRUE
+  MaxSlots = 1
+  WithDict = FALSE
   WithNest = FALSE
   Nest2 = FALSE
-  WithStream = FALSE
+  WithStream = TRUE
   StreamLayouts = {"none"}
   WithDangling = FALSE
   WithNullObj = FALSE
   WithScalarObj = TRUE
-  CallOps = {"ref","arr2"}
+  CallOps = {"ref"}
   WithTwin = FALSE
   CFIndirect = FALSE
   PlainIdentity = FALSE
   KeyByNumber = FALSE
   CryptProbeDirectOnly = FALSE
-  ParmRefLayouts = {}
-  InlinedAsIs = FALSE
-INVARIANTS Once Repeat Terminates NoPanic ErrorsOnlyUnsupported Shape Sharing IsoInv
+  ParmRefLayouts = {"dict","array","inddict","indarray"}
+  InlinedAsIs = TRUE
+INVARIANTS Shape
